@@ -72,7 +72,7 @@ MANIFEST = dict(
     text="Every operator body of operator.c is verified against a contract transcribed from the manual's operator table "
          "(result type and value over the full 64-bit / IEEE double domain, error and no value where the manual says undefined, "
          "flag promotion, frame = *pErg only) by CBMC function contracts (goto-instrument --dfcc --enforce-contract) on the real "
-         "translation unit; unbounded in the operand values. The operator table is compared with the manual's table (ranks, arity, operand types); the built-in functions (bit/char/abs/sgn, STRLEN, CHARFROMSTR, SUBSTR, STRSTR, FIRSTBIT/LASTBIT/BITPOS) are under contract, the string ones bounded in the string length. Expression parsing (precedence as executed) and number literals are not part of the proof.",
+         "translation unit; unbounded in the operand values. The operator table is compared with the manual's table (ranks, arity, operand types); the built-in functions (bit/char/abs/sgn, STRLEN, CHARFROMSTR, SUBSTR, STRSTR, FIRSTBIT/LASTBIT/BITPOS) are under contract, the string ones bounded in the string length. Which integer notations are active (intformat.c: INTSYNTAX, RELAXED, CPU switch) is under harness obligations: active iff native, or relaxed and of another family, in the priority order of the master table. Expression parsing (precedence as executed) and the digit conversion of number literals are not part of the proof.",
     note="Trusted: ghost stubs for WrError (count only) and libm pow; CBMC's bit-precise C and IEEE semantics; type dispatch in "
          "EvalStrExpression (operands arrive with table-admitted types). Known finding C08_SHR_NEG (>> arithmetic for negative left operand).",
 )
